@@ -77,7 +77,12 @@ func runC14(ctx *core.Ctx) {
 			}
 		})
 		used := map[int]bool{}
+		constReturn := false
 		for _, r := range graph(p, nq).Returns() {
+			if _, isConst := ssax.ConstBool(ssax.ReturnValues(r)[0]); isConst {
+				constReturn = true
+				ctx.Bad("Q1", "txtar.NeedsQuote#constant-verdict", r.Pos(), "NeedsQuote returns a constant on this path without consulting the marker search: its verdict is exact only if every path decides by the search the parser uses (a shortcut test such as 'contains \" --\\n\"' misses CRLF-terminated and unterminated final marker lines)")
+			}
 			for idx := 0; idx < search.Signature.Results().Len(); idx++ {
 				idx := idx
 				if ssax.DerivedFrom(r.Results[0], func(v ssa.Value) bool {
@@ -92,6 +97,17 @@ func runC14(ctx *core.Ctx) {
 				}
 			}
 		}
+		// the search's own discriminator (constant-empty on its no-marker return, known non-empty on a hit)
+		sd, _, _ := discriminator(p, search)
+		for k := range disc {
+			if !sd[k] {
+				delete(disc, k)
+			}
+		}
+		if len(disc) == 0 {
+			disc = sd
+		}
+		_ = constReturn
 		same := len(disc) > 0 && len(used) > 0
 		for k := range used {
 			if !disc[k] {
